@@ -123,7 +123,8 @@ def tr_stmt(s):
         if item == "open(output_file, 'wb') as out_file":
             rest = [b for b in s.body if not (isinstance(tr_stmt(b), str) and tr_stmt(b).startswith(".log"))]
             if [ast.unparse(b) for b in rest] == ["out_file.write(skops_dump)"]:
-                return [t for t in tr_block([b for b in s.body if b not in rest])] + [".writeOutput"]
+                # the records emitted inside the block follow the open: a failing open emits none of them
+                return [".writeOutput"] + [t for t in tr_block([b for b in s.body if b not in rest])]
         if item == "open(file, 'wb') as f" and body == ["f.write(buffer.getbuffer())"]:
             return ".writeSinkPath"
     return unknown(s)
